@@ -678,7 +678,8 @@ pub fn run<KD: Kind, const N: usize>(case: &Case, cx: &mut Ctx) {
         tl::liar_off();
     }
     if case.fuse >= 0 {
-        tl::fuse_arm(case.fuse as i64);
+        // C04: in a quarter of the cases a second panic follows `gap` callbacks after the first
+        tl::fuse_arm2(case.fuse as i64, if case.prop == Prop::C04 && case.mode & 3 == 3 { 1 + (case.mode >> 2) % 12 } else { 0 });
     } else {
         tl::fuse_arm(-1);
     }
